@@ -43,6 +43,7 @@ import (
 type vkPlug struct {
 	plugin.Plugin
 	st       *sysState
+	idx      int
 	mu       *sync.Mutex
 	prepared *time.Duration
 	w        func() time.Duration
@@ -56,7 +57,7 @@ func (p *vkPlug) Prepare(ifi *net.Interface) error {
 		if p.st.AddrErr {
 			return nil, fmt.Errorf("verif: injected address source failure")
 		}
-		return slices.Clone(p.st.Addrs), nil
+		return stFor(*p.st, p.idx).Addrs, nil
 	}
 	routes := func() ([]system.Route, error) {
 		if p.st.RouteErr {
@@ -148,7 +149,7 @@ func c17Prop(t *testing.T, k *verifkit.Kit) func(c c17Case) error {
 				p := time.Duration(-1)
 				prepared[ifi.Name] = &p
 				for j := range ifi.Plugins {
-					ifi.Plugins[j] = &vkPlug{Plugin: ifi.Plugins[j], st: &st, mu: &mu, prepared: prepared[ifi.Name], w: w.now}
+					ifi.Plugins[j] = &vkPlug{Plugin: ifi.Plugins[j], st: &st, idx: i, mu: &mu, prepared: prepared[ifi.Name], w: w.now}
 				}
 				w.fwd[ifi.Name] = st.Fwd
 				if len(c.Autoconf) > 0 {
@@ -403,7 +404,7 @@ func c17Prop(t *testing.T, k *verifkit.Kit) func(c c17Case) error {
 				err bool
 			}
 			var exps []expIf
-			for _, ri := range ref.Cfg.Interfaces {
+			for ifIdx, ri := range ref.Cfg.Interfaces {
 				e := expIf{ri: ri}
 				if ri.Advertise {
 					if p.Prepared[ri.Name+"/ambiguous"] {
@@ -412,12 +413,10 @@ func c17Prop(t *testing.T, k *verifkit.Kit) func(c c17Case) error {
 					if !p.Prepared[ri.Name] {
 						allReady = false
 					}
-					st := c.State
-					st.MAC = vkIfiMAC
+					st := stFor(c.State, ifIdx)
+					st.MAC = vkMACFor(ri.Name)
 					st.Fwd = p.Fwd[ri.Name]
 					st.NowNS = int64(p.At)
-					e.ra, e.err = expectRA(ri, st, time.Time{}.Add(0))
-					// epoch = bubble start; deadlines are relative, so compute with a synthetic epoch
 					e.ra, e.err = expectRA(ri, st, time.Unix(946684800, 0))
 				}
 				exps = append(exps, e)
